@@ -19,7 +19,7 @@ FUEL = 10000
 
 
 def budget(tier):
-    return 700 if tier == "quick" else 14000
+    return 2500 if tier == "quick" else 25000
 
 
 def gen(rng, index, tier):
@@ -38,7 +38,7 @@ def gen(rng, index, tier):
         if "pickaperm" in config:
             sch = common.family_scheme(rng, "unifying")
     else:
-        sch = lib.gen_scheme(rng, family=rng.choice(["preset", "grid", "grid", "preset_mult", "zeroheavy"]))
+        sch = lib.gen_scheme(rng, family=rng.choice(["preset", "grid", "grid", "preset_mult", "zeroheavy", "fine", "fine", "cheap_ties"]))
     return {"kind": "run", "dataset": raw, "scheme": sch, "config": config, "amo": rng.random() < 0.4, "meta": meta}
 
 
@@ -53,7 +53,7 @@ def ops(case, out):
     if "err" in out or "rankings" not in out:
         return []
     S = lib.scheme_tree(case["scheme"])
-    res = [("bio.run", [S, [out["obs"], [out["starters_cons"], [int(case["amo"]), [0, FUEL]]]]])]
+    res = [("bio.run", [S, [out["obs"], [out["starters_cons"], [int(case["amo"]), [lib.tau(case["scheme"]), FUEL]]]]])]
     if isinstance(out["score_before"], int):
         res.append(("c09.holds", [S, [out["obs"], [out["rankings"], [out["score_before"], out["starters_cons"]]]]]))
     return res
